@@ -349,6 +349,9 @@ func runC01(c *Ctx) {
 	checkFirstPassAdmission(c, p)
 	checkEveryRangeScored(c, p)
 	checkIndexCompleteAndCountersWide(c, p)
+	// shared with C06: a carriage return ends a word (R06.23) - otherwise a lone CR glues the last word of the context to the
+	// first word of a copy
+	checkCarriageReturnEndsWords(c, p)
 	// shared with C06: a copy is tokenized like its source only if the text of a token is computed for that token, at its own
 	// position in its line - not taken from a cache filled by an earlier occurrence of the word elsewhere (R06.5)
 	checkTokenTextProvenance(c, p)
@@ -1055,6 +1058,7 @@ func runC05(c *Ctx) {
 	}
 	checkCandidateLinesTraversed(c, p)
 	checkIndexKeysAgree(c, p)
+	checkRound12Tokenizer(c, p, map[string]bool{"R05.13": true, "R06.24": true})
 	// shared with C06: whether a line is a notice is decided for every line, whatever its length in bytes (R06.6): a
 	// typographic quote is three bytes where the ASCII one is one
 	checkNoticePatternsUnconditional(c, p)
@@ -1497,6 +1501,8 @@ func runC06(c *Ctx) {
 	checkDictLookupsOnCleanWord(c, p)
 	checkTokenizerCallArgsAgree(c, p)
 	checkRejectedCandidateHasNoEffect(c, p)
+	checkRound12Tokenizer(c, p, map[string]bool{"R06.24": true})
+	checkCarriageReturnEndsWords(c, p)
 	checkMidLineNotNotice(c, p)
 	// shared with C11: a notice is recognised on the cleaned-up form of its line as well, for every line (R11.10)
 	checkNoticeDecisionOnCleanedLine(c, p)
@@ -2406,6 +2412,7 @@ func runC11(c *Ctx) {
 	checkNoticeDecisionOnCleanedLine(c, p)
 	checkNumberWordsAndLocalDictionary(c, p)
 	checkTokenizerCallArgsAgree(c, p)
+	checkRound12Tokenizer(c, p, map[string]bool{"R11.18": true})
 	// shared with C10: Match of the original and of the normalised text both return: a table indexed by line numbers is a map
 	// or tested against its length (R10.12) - the notices Normalize removes leave no token
 	checkLineKeyedTables(c, p, v2LibFuncs(p))
@@ -6669,5 +6676,237 @@ func checkMidLineNotNotice(c *Ctx, p *core.Prog) {
 		}
 		c.R.Check(unguarded == "", "R06.22", "v2: the line-anchored notice patterns are applied only to words that start their line", p.Pos(fn.Pos()), fmt.Sprintf("%d pattern tests, each behind a test of the position of the buffer's first word", nT),
 			"the patterns are tested at "+unguarded+" whatever the position of the buffer's first word in its line ("+pos.Name()+"): the words behind the remainder of a hyphen-split word are taken for a line of their own, so a split in front of words that look like a notice removes the rest of the line from the text")
+	}
+}
+
+// checkCarriageReturnEndsWords: R06.23. A carriage return is white space: it ends the word in front of it, except where that
+// word ends in a hyphen (then the line feed behind it joins the word with its remainder). In the tokenizer every test
+// `r == '\r'` that lets the rune be skipped is paired with a test for the hyphen: on its own it makes a lone carriage return -
+// old Mac line ends, captured progress output - glue the words on either side of it together.
+func checkCarriageReturnEndsWords(c *Ctx, p *core.Prog) {
+	ts := p.Func(v2pkg, "tokenizeStream")
+	if ts == nil {
+		return
+	}
+	nCR, bad := 0, ""
+	for _, fn := range pkgClosure(ts, v2pkg) {
+		if isTraceFn(fn) {
+			continue
+		}
+		var hyph []*ssa.BasicBlock
+		for _, b := range fn.Blocks {
+			for _, in := range b.Instrs {
+				if bo, ok := in.(*ssa.BinOp); ok && (bo.Op == token.EQL || bo.Op == token.NEQ) {
+					if k, isK := core.ConstInt(bo.Y); isK && k == '-' {
+						hyph = append(hyph, b)
+					}
+				}
+			}
+		}
+		direct := core.NewPostDom(fn).ControlDeps()
+		cd := map[*ssa.BasicBlock]map[*ssa.BasicBlock]bool{}
+		for b2, ds := range direct {
+			cd[b2] = map[*ssa.BasicBlock]bool{}
+			for _, d := range ds {
+				cd[b2][d] = true
+			}
+		}
+		for _, b := range fn.Blocks {
+			ifi, ok := b.Instrs[len(b.Instrs)-1].(*ssa.If)
+			if !ok {
+				continue
+			}
+			bo, ok := ifi.Cond.(*ssa.BinOp)
+			if !ok || bo.Op != token.EQL {
+				continue
+			}
+			if k, isK := core.ConstInt(bo.Y); !isK || k != '\r' {
+				continue
+			}
+			if bt, isB := bo.X.Type().Underlying().(*types.Basic); !isB || bt.Kind() != types.Int32 {
+				continue
+			}
+			nCR++
+			paired := false
+			for _, h := range hyph {
+				// the hyphen test stands behind the true branch of the CR test, or the CR test stands behind the hyphen test
+				t := b.Succs[0]
+				tIsHeader := false
+				for _, pr := range t.Preds {
+					if t.Dominates(pr) {
+						tIsHeader = true
+					}
+				}
+				if (!tIsHeader && (t == h || t.Dominates(h))) || cd[b][h] {
+					paired = true
+				}
+			}
+			if !paired && bad == "" {
+				bad = core.ShortFn(fn) + ": " + p.Pos(bo.Pos())
+			}
+		}
+	}
+	if nCR == 0 {
+		return
+	}
+	c.R.Check(bad == "", "R06.23", "tokenizeStream: a carriage return is skipped only together with a test for a trailing hyphen", p.Pos(ts.Pos()), fmt.Sprintf("%d tests of the rune against the carriage return, each paired with a hyphen test", nCR),
+		"the test at "+bad+" lets a carriage return pass without looking for a hyphen at the end of the open word: a carriage return no longer ends a word, so a lone CR between two words glues them together")
+}
+
+// checkRound12Tokenizer: R05.13, R06.24, R11.18.
+func checkRound12Tokenizer(c *Ctx, p *core.Prog, rules map[string]bool) {
+	ts := p.Func(v2pkg, "tokenizeStream")
+	if ts == nil {
+		return
+	}
+	// R05.13: a finished word goes into the words of its line the same way wherever it is finished - at a blank, at a line feed,
+	// at the end of the input: the results of the word flush are consumed alike at every site (all appended directly, or all
+	// handed to the same helper). A helper that joins two-word spellings at one site only makes trailing blanks or CR LF decide
+	// whether the last two words of a line are joined.
+	if rules["R05.13"] {
+		fb := p.Func(v2pkg, "flushBuf")
+		if fb != nil {
+			kinds := map[string]string{}
+			n := 0
+			for _, call := range core.CallsIn(ts) {
+				cv, ok := call.(*ssa.Call)
+				if !ok || cv.Call.StaticCallee() != fb {
+					continue
+				}
+				n++
+				kind := "unused"
+				var follow func(v ssa.Value, d int)
+				follow = func(v ssa.Value, d int) {
+					if v.Referrers() == nil || d > 4 {
+						return
+					}
+					for _, r := range *v.Referrers() {
+						switch u := r.(type) {
+						case *ssa.Store:
+							if ia, isIA := u.Addr.(*ssa.IndexAddr); isIA {
+								// the varargs array of append
+								if al, isAl := ia.X.(*ssa.Alloc); isAl {
+									for _, r2 := range *al.Referrers() {
+										if sl, isSl := r2.(*ssa.Slice); isSl {
+											follow(sl, d+1)
+										}
+									}
+								}
+							}
+						case *ssa.Call:
+							if bi, isB := u.Call.Value.(*ssa.Builtin); isB {
+								kind = "builtin " + bi.Name()
+							} else if g := u.Call.StaticCallee(); g != nil {
+								kind = "call of " + core.ShortFn(g)
+							}
+						}
+					}
+				}
+				follow(cv, 0)
+				kinds[kind] = p.Pos(cv.Pos())
+			}
+			bad := ""
+			if len(kinds) > 1 {
+				for k, pos := range kinds {
+					bad += k + " (" + pos + "); "
+				}
+			}
+			if n > 0 {
+				c.R.Check(bad == "", "R05.13", "tokenizeStream: a finished word is added to its line the same way at every site", p.Pos(ts.Pos()), fmt.Sprintf("%d word flushes, consumed alike", n),
+					"the results of the word flush are consumed differently: "+bad+"what happens to a word depends on whether a blank, a line feed or the end of the input finished it - trailing blanks or CR LF line ends change the tokens")
+			}
+		}
+	}
+	// R06.24: the position offset of a line becomes non-zero only where words of the line were just handed over (behind the
+	// remainder of a hyphenated word): an assignment of a non-zero constant to the integer that is passed as the position of
+	// the buffer's first word stands behind a hand-over call in the same iteration. Set anywhere else (for a bullet character
+	// at the start of a line, say), it switches the list-marker rule off for lines with that decoration only.
+	if rules["R06.24"] {
+		atd := p.Func(v2pkg, "appendToDoc")
+		if atd != nil {
+			var posArgs []ssa.Value
+			var calls []*ssa.Call
+			for _, call := range core.CallsIn(ts) {
+				if cv, ok := call.(*ssa.Call); ok && cv.Call.StaticCallee() == atd {
+					calls = append(calls, cv)
+					posArgs = append(posArgs, cv.Call.Args[len(cv.Call.Args)-1])
+				}
+			}
+			web := map[ssa.Value]bool{}
+			var walk func(v ssa.Value)
+			walk = func(v ssa.Value) {
+				v = core.Unspill(v)
+				if v == nil || web[v] {
+					return
+				}
+				web[v] = true
+				if ph, ok := v.(*ssa.Phi); ok {
+					for _, e := range ph.Edges {
+						walk(e)
+					}
+				}
+			}
+			for _, a := range posArgs {
+				walk(a)
+			}
+			nSet, bad := 0, ""
+			for v := range web {
+				ph, ok := v.(*ssa.Phi)
+				if !ok {
+					continue
+				}
+				for i, e := range ph.Edges {
+					k, isK := core.ConstInt(e)
+					if !isK || k == 0 {
+						continue
+					}
+					nSet++
+					pred := ph.Block().Preds[i]
+					behind := false
+					for _, cv := range calls {
+						if (cv.Block() == pred || cv.Block().Dominates(pred)) && loopDepthOf(cv.Block()) == loopDepthOf(pred) {
+							behind = true
+						}
+					}
+					if !behind && bad == "" {
+						bad = p.Pos(pred.Instrs[len(pred.Instrs)-1].Pos())
+						if bad == "-" {
+							bad = p.Pos(ph.Pos())
+						}
+					}
+				}
+			}
+			if nSet > 0 {
+				c.R.Check(bad == "", "R06.24", "tokenizeStream: the position offset of a line is set only where words of the line were just handed over", p.Pos(ts.Pos()), fmt.Sprintf("%d assignments of a non-zero constant, each behind a hand-over in the same iteration", nSet),
+					"the position offset becomes non-zero at "+bad+" without a hand-over of the line's words: the first word of such a line is no longer taken for a list marker - a marker behind `- ` or a bullet stays a token while the same text without that decoration drops it")
+			}
+		}
+	}
+	// R11.18: the clean-up of a word keeps letters, and digits where the word is a number - no other class of runes: the only
+	// predicates of package unicode it asks are IsLetter and IsDigit. A class that can be kept inside a word but cannot start
+	// one (combining marks) gives a cleaned word that is read back differently.
+	if rules["R11.18"] {
+		if ct := p.Func(v2pkg, "cleanupToken"); ct != nil {
+			bad := ""
+			n := 0
+			for _, f := range pkgClosure(ct, v2pkg) {
+				for _, call := range core.CallsIn(f) {
+					nm := core.StaticCalleeName(call.Common())
+					if !strings.HasPrefix(nm, "unicode.Is") && nm != "unicode.In" {
+						continue
+					}
+					n++
+					switch nm {
+					case "unicode.IsLetter", "unicode.IsDigit", "unicode.IsSpace":
+					default:
+						if bad == "" {
+							bad = nm + " at " + p.Pos(call.Pos())
+						}
+					}
+				}
+			}
+			c.R.Check(bad == "", "R11.18", "cleanupToken keeps letters and digits only", p.Pos(ct.Pos()), fmt.Sprintf("%d class tests, all IsLetter/IsDigit", n),
+				"the clean-up also asks "+bad+": runes of that class are kept inside a word but a word cannot begin with one, so a cleaned word that starts with such a rune is tokenized again as another word - Match of the normalised text differs")
+		}
 	}
 }
